@@ -16,7 +16,7 @@ from .common import Out, drop_each, with_, REAL_ALL, STUB_ALL
 ID = "C10"
 TIERS = {"quick": {"n": 2600, "chunk": 40}, "thorough": {"n": 60000, "chunk": 150, "wall_cap": 3300}}
 RULE = (
-    "each scenario is a seeded history of 2-7 runs (1 in 10: 8-20; 1 in 25: a burst of 12-17 runs of one group inside one second followed by a later run) drawn from {g1,g2} x {new,reused CsvPaths} x 7 run forms, the simulated clock set before each run by a profile "
+    "each scenario is a seeded history of 2-7 runs (1 in 10: 8-20; 1 in 25: a burst of 12-17 runs of one group inside one second followed by a later run; 1 in 25: two interleaved callers - a generator run obtained, another whole run performed, then the generator iterated) drawn from {g1,g2} x {new,reused CsvPaths} x 7 run forms, the simulated clock set before each run by a profile "
     "(same second, +1s, +minutes, to 12:59:5x/13:00:0x, to 23:59:5x/00:00:0x, +12h exactly, backward step), 0, 1 ms or 400 ms clock advance per clock read (a run can straddle second boundaries), listdir order permuted; invariants are checked after every run. "
     "Non-trivial = at least two runs of one group, or a reused instance; distinct = distinct sequences of step classes (group, new/reused, serial/by-line, collecting?, clock profile)."
 )
@@ -79,9 +79,32 @@ def generate_burst(rng):
     return {"seed": rng.getrandbits(32), "listdir_salt": rng.choice([None, rng.getrandbits(16)]), "step_us": 0, "steps": steps}
 
 
+def generate_interleave(rng):
+    """Two callers interleaved: A obtains a generator run (next_paths / next_by_line) but has not iterated it yet
+    when B performs a whole run of the same group; then A iterates.  Both in one clock second or a second apart."""
+    t = seams.EPOCH.replace(hour=rng.choice([9, 12, 23]), minute=59, second=rng.choice([57, 59]))
+    g = rng.choice(["g1", "g2"])
+    return {
+        "kind": "interleave",
+        "seed": rng.getrandbits(32),
+        "listdir_salt": rng.choice([None, rng.getrandbits(16)]),
+        "at": seams.iso(t),
+        "group": g,
+        "a_method": rng.choice(["next_paths", "next_paths_collect", "next_by_line"]),
+        "b_method": rng.choice(ops.METHODS),
+        "b_group": g if rng.random() < 0.8 else ("g2" if g == "g1" else "g1"),
+        "b_same_instance": rng.random() < 0.3,
+        "gap_s": rng.choice([0, 0, 1]),
+        "earlier_run": rng.random() < 0.5,
+        "steps": [],
+    }
+
+
 def generate(rng, i, tier):
     if i % 25 == 24:
         return generate_burst(rng)
+    if i % 25 == 12:
+        return generate_interleave(rng)
     long = rng.random() < 0.1
     n = rng.randint(8, 20) if long else rng.randint(2, 7)
     t = seams.EPOCH.replace(hour=rng.choice([9, 11, 12, 22, 23]), minute=rng.choice([26, 58, 59]), second=rng.choice([53, 57, 58, 59]))
@@ -121,6 +144,16 @@ def generate(rng, i, tier):
 
 
 def reductions(sc):
+    if sc.get("kind") == "interleave":
+        if sc.get("earlier_run"):
+            yield with_(sc, earlier_run=False)
+        if sc.get("listdir_salt") is not None:
+            yield with_(sc, listdir_salt=None)
+        if sc["b_method"] != "collect_paths":
+            yield with_(sc, b_method="collect_paths")
+        if sc["gap_s"]:
+            yield with_(sc, gap_s=0)
+        return
     for cand in drop_each(sc["steps"], 1):
         yield with_(sc, steps=cand)
     if sc.get("listdir_salt") is not None:
@@ -154,7 +187,65 @@ def _sec(t):
     return t.replace(microsecond=0)
 
 
+def _execute_interleave(sc):
+    out = Out()
+    t0 = seams.parse_iso(sc["at"])
+    seams.reset(sc["seed"], clock=t0, listdir_salt=sc.get("listdir_salt"))
+    with W.World() as w:
+        w.write_csv("src/f.csv", ROWS)
+        cs_a = ops.new_csvpaths()
+        with ops.quiet():
+            cs_a.file_manager.add_named_file(name="f", path="src/f.csv")
+            for g, ps in GROUPS.items():
+                cs_a.paths_manager.add_named_paths(name=g, paths=ps)
+        g = sc["group"]
+        dirs = []
+        if sc.get("earlier_run"):
+            ops.run_group(cs_a, "collect_paths", g)
+            out.runs += 1
+            dirs.append(("earlier", g, ops.results_of(cs_a, g)[0].run_dir))
+            seams.SimClock.advance(seconds=1)
+        with ops.quiet():
+            it = ops.run_iter(cs_a, sc["a_method"], g)  # A: obtained, not iterated
+        cs_b = cs_a if sc["b_same_instance"] and sc["b_group"] != g else ops.new_csvpaths()
+        ops.run_group(cs_b, sc["b_method"], sc["b_group"])  # B: a whole run in between
+        out.runs += 1
+        bdir = ops.results_of(cs_b, sc["b_group"])[0].run_dir
+        dirs.append(("B", sc["b_group"], bdir))
+        if sc["gap_s"]:
+            seams.SimClock.advance(seconds=sc["gap_s"])
+        before = W.tree_hashes("archive")
+        with ops.quiet():
+            for _ in it:  # A iterates now
+                pass
+        out.runs += 1
+        out.fault("interleaved_callers")
+        after = W.tree_hashes("archive")
+        adir = ops.results_of(cs_a, g)[0].run_dir
+        where = f"A={sc['a_method']}({g}) obtained, B={sc['b_method']}({sc['b_group']}) ran ({'same' if cs_b is cs_a else 'other'} instance), then A iterated {sc['gap_s']}s later"
+        if os.path.dirname(adir) != os.path.join("archive", g):
+            out.v("wrong_group_dir", f"{where}: A wrote to {adir}, not under archive/{g}/", reused=False)
+        for who, gg, d in dirs:
+            if d == adir:
+                out.v("dir_reused", f"{where}: A used run directory {adir}, already used by run {who}", reused=cs_b is cs_a, same_second=sc["gap_s"] == 0, interleaved=True)
+        for p, h in before.items():
+            if p != os.path.join("archive", "manifest.json") and after.get(p) != h:
+                out.v("earlier_run_modified", f"{where}: iterating A {'removed' if p not in after else 'changed'} {p}, a file of an earlier run", reused=cs_b is cs_a, interleaved=True)
+                break
+        for p in after:
+            if p not in before and not p.startswith(adir + os.sep) and p != os.path.join("archive", "manifest.json"):
+                out.v("wrote_outside_run_dir", f"{where}: iterating A created {p} outside its run directory {adir}", reused=cs_b is cs_a)
+                break
+        out.sig = ["interleave", sc["a_method"], sc["b_method"], sc["b_group"] == g, cs_b is cs_a, sc["gap_s"], bool(sc.get("earlier_run"))]
+        out.nontrivial = True
+        out.probe("a run performed between obtaining and iterating a generator run of the same group", sc["b_group"] == g)
+        out.log(adir, bdir, sorted(p for p in after if p not in before), len(out.violations))
+    return out.done()
+
+
 def execute(sc):
+    if sc.get("kind") == "interleave":
+        return _execute_interleave(sc)
     out = Out()
     steps = sc["steps"]
     t0 = seams.parse_iso(steps[0]["at"]) if steps else seams.EPOCH
